@@ -17,10 +17,45 @@ forwarded by it nor handed to its own software* — for BOTH verdicts a firewall
 import PrimaiteModel.Model.FilterClass
 import PrimaiteModel.Props.C06
 import PrimaiteModel.Gen.Filter
+import PrimaiteModel.Props.C07Frame
 namespace Primaite.Filter
 open Primaite Primaite.Acl Primaite.Cut
 
 variable {W : Type}
+
+/-! ## 0. the verdict is history-free -/
+
+/-- the list after it has judged the packets `hist`, in that order (only hit counters move) -/
+def afterHistory (a : Acl) (hist : List Packet) : Acl := hist.foldl (fun a q => (isPermitted a q).2.2) a
+
+/-- **`denied` is a function of (rule list, frame), not of what the element has judged before.**  Whatever packets a list has
+judged — permitted traffic to a third host on the same protocol and ports, probes, floods, in any order — its verdict and the
+deciding rule for packet `p` are those of the list as configured.  This is why the cut theorems may quantify over arbitrary
+prior traffic (the initial state of every rule list is "any counters"); a verdict cache keyed by less than the whole packet
+(seeded change C06-e: protocol, source, ports — no destination) is exactly what it excludes. -/
+theorem C06_verdict_history_free (a : Acl) (hist : List Packet) (p : Packet) :
+    (isPermitted (afterHistory a hist) p).1 = (isPermitted a p).1 ∧
+    (isPermitted (afterHistory a hist) p).2.1 = (isPermitted a p).2.1 := by
+  induction hist generalizing a with
+  | nil => exact ⟨rfl, rfl⟩
+  | cons q rest ih =>
+    have h1 := ih (isPermitted a q).2.2
+    have h2 := C07_verdict_stable a p q
+    simp only at h2
+    exact ⟨h1.1.trans h2.1, h1.2.trans h2.2⟩
+
+/-- non-vacuity: A→C permitted (dst-specific PERMIT above), then A→B with the same protocol, source and ports is still denied -/
+example : let acl : Acl := { rules := [some { anyPattern with action := .permit, dstIp := some 0x0A000215#32 },
+                                        some { anyPattern with dstIp := some 0x0A000214#32 }] ++ List.replicate 22 none, implicit := .permit }
+    let toC : Packet := { proto := .tcp, srcIp := 0x0A00010A#32, dstIp := 0x0A000215#32, ports := some (5432, 5432) }
+    let toB : Packet := { proto := .tcp, srcIp := 0x0A00010A#32, dstIp := 0x0A000214#32, ports := some (5432, 5432) }
+    (isPermitted acl toC).1 = true ∧ (isPermitted (afterHistory acl [toC, toC]) toB).1 = false := by decide
+
+/-- **the code's `AccessControlList.is_permitted` reads the object and the frame, nothing else**: C07's translation of the method
+(regenerated on every C06 run as well) equals the model function; a memo, a session table or any other state would have to
+appear in the translated method and break this -/
+theorem C06_gen_is_permitted_pure (a : AclObj) (f : Primaite.Gen.AclMatch.FrameView) :
+    Primaite.Gen.AclState.isPermitted a f = a.isPermitted (toPacket f) := C07_gen_is_permitted a f
 
 /-! ## 1. the decision between the two stages, tied to the source expression -/
 
@@ -96,6 +131,16 @@ theorem C06_router_denied_nothing (soft : Soft W) (s : Node W) (p : Nat) (f : Fr
   cases hon : s.on
   · exact ⟨s, by simp, rfl, rfl, hon⟩
   · exact ⟨s.setAcl .router (isPermitted (s.acls .router) f.pkt).2.2, by simp [hsub, hdeny], rfl, rfl, hon⟩
+
+/-- the same through a router: in whatever order it judged other frames, a frame its configured list denies is dropped -/
+theorem C06_router_deny_after_history (soft : Soft W) (s : Node W) (p : Nat) (f : Frame) (hist : List Packet)
+    (hk : s.kind = .router) (hsub : subjectToAcl f = some true) (hdeny : (isPermitted (s.acls .router) f.pkt).1 = false) :
+    ∃ s', nodeLayer soft (s.setAcl .router (afterHistory (s.acls .router) hist)) p f = .done s' ∧ s'.sw = s.sw ∧
+      s'.ifaces = s.ifaces ∧ s'.on = s.on := by
+  have hd : (isPermitted ((s.setAcl .router (afterHistory (s.acls .router) hist)).acls .router) f.pkt).1 = false := by
+    simp only [Node.setAcl, if_true]
+    rw [(C06_verdict_history_free _ hist f.pkt).1]; exact hdeny
+  exact C06_router_denied_nothing soft _ p f hk hsub hd
 
 /-! ## 3. the firewall, both stages, one expression -/
 
